@@ -1183,4 +1183,315 @@ Proof.
     (match goal with |- context [is_Exception ?x] => destruct (is_Exception x) end); reflexivity.
 Qed.
 
+Lemma aft_s2_facts (s : st) :
+  plans (aft_s2 s) = plans s /\ resps (aft_s2 s) = tl (resps s) /\ state (aft_s2 s) = state s /\
+  exc_slot (aft_s2 s) = None /\
+  stashed (aft_s2 s) = match exc_slot s with Some e => Some e | None => stashed s end.
+Proof. unfold aft_s2. cbn. destruct (exc_slot s) eqn:E; cbn; repeat split; auto. Qed.
+
+Lemma aft_res_com (s2 : st) thr x s' c' o : aft_res s2 thr x = inl (s', c', o) ->
+  state s' = state s2 /\ exc_slot s' = exc_slot s2 /\ o = snd x.
+Proof.
+  unfold aft_res. destruct x as [o0 po]. intros H.
+  repeat bm_hyp H; inversion H; subst; clear H; repeat split; try reflexivity; destruct thr; reflexivity.
+Qed.
+Lemma aft_res_inr (s2 : st) thr x s' o : aft_res s2 thr x = inr (s', o) -> False.
+Proof. unfold aft_res. destruct x as [o0 po]. intros H. repeat bm_hyp H; inversion H. Qed.
+
+Lemma exc_ok_none (s : st) : exc_slot s = None -> exc_ok s.
+Proof. intros E e He. congruence. Qed.
+
+(* resuming a frame when the tracked plan is not on the stack *)
+Lemma aft_gone (s2 : st) ms thr top pl i o0 po s' c' o :
+  Forall okf (plans s2) -> dead2 (mp ms) -> plans s2 = top :: pl ->
+  frame_resume presume top i = (o0, po) -> aft_res s2 thr (o0, po) = inl (s', c', o) ->
+  exists ms', MA pid ms o ms' /\ mstate ms' = mstate ms /\ QP s' c' ms'.
+Proof.
+  intros Hok Hd Ep Hfr H. rewrite Ep in Hok. inversion Hok as [|? ? Htop Hpl]; subst.
+  assert (Hopl : opl po) by (eapply frame_resume_opl; eauto).
+  assert (Hn : mp ms <> SIn) by (destruct Hd; congruence).
+  exists (ms_after ms po). split.
+  { apply aft_res_com in H as (_ & _ & ->). cbn. apply MA_opl; assumption. }
+  split; [apply ms_after_mstate|].
+  assert (Hd' : dead2 (mp (ms_after ms po))) by (rewrite ms_after_mp; exact Hd).
+  assert (Hd3 : dead3 (mp (ms_after ms po))) by (destruct Hd' as [E|E]; rewrite E; unfold dead3; auto).
+  unfold aft_res in H.
+  destruct o0 as [m f'|v|e'].
+  - inversion H; subst; clear H. cbn. left. split; [|exact Hd'].
+    assert (Hf' : okf f') by (eapply frame_resume_yield_okf; eauto).
+    destruct thr; cbn; rewrite Ep; cbn; constructor; assumption.
+  - assert (Hpl' : plans (pop_plan s2) = pl) by (cbn; rewrite Ep; reflexivity).
+    destruct (plans (pop_plan s2)) eqn:E3; inversion H; subst; clear H; cbn.
+    + left. split; [rewrite E3; constructor|exact Hd3].
+    + left. split; [|exact Hd']. destruct thr; cbn; rewrite Ep; cbn; exact Hpl.
+  - destruct (is_Exception e').
+    + assert (Hpl' : plans (pop_plan s2) = pl) by (cbn; rewrite Ep; reflexivity).
+      destruct (plans (pop_plan s2)) eqn:E3; inversion H; subst; clear H; cbn.
+      * left. split; [rewrite E3; constructor|exact Hd3].
+      * left. split; [|exact Hd']. cbn. rewrite Ep; cbn; exact Hpl.
+    + destruct e'; inversion H; subst; clear H; cbn;
+        try (left; split; [cbn; rewrite Ep; cbn; constructor; [exact I|exact Hpl]|exact Hd3]).
+      left. split; [rewrite Ep; constructor; assumption|exact Hd'].
+Qed.
+
+(* resuming an engine frame above the tracked plan *)
+Lemma aft_eng (s2 : st) ms f fs' p b rs' g i o0 po s' c' o :
+  plans s2 = f :: fs' ++ [FUser pid p b] -> resps s2 = rs' ++ [g] ->
+  eng f -> Forall eng fs' -> Forall2 (pairE ms) fs' rs' -> owed ms b g -> stash_ok s2 ms ->
+  ((exists e, i = Throw e /\ aE ms e) \/ (exists v, i = Send v /\ stashed s2 = None /\ (startedF f \/ v = VNone))) ->
+  frame_resume presume f i = (o0, po) -> aft_res s2 (is_throw i) (o0, po) = inl (s', c', o) ->
+  exists ms', MA pid ms o ms' /\ mstate ms' = mstate ms /\ QP s' c' ms'.
+Proof.
+  intros Ep Er Hf Hfs Hpairs Howed Hstash Hi Hfr H.
+  assert (Hopl : opl po) by (eapply frame_resume_opl; eauto using eng_okf).
+  assert (Hn : mp ms <> SIn) by (unfold owed in Howed; destruct (mp ms); try tauto; congruence).
+  set (ms' := ms_after ms po).
+  assert (Hmono : mono ms ms') by apply mono_after.
+  assert (Emp : mp ms' = mp ms) by apply ms_after_mp.
+  assert (Howed' : owed ms' b g) by (eapply owed_mp; eassumption).
+  assert (Hpairs' : Forall2 (pairE ms') fs' rs') by (eapply pairs_mono; eassumption).
+  exists ms'. split.
+  { apply aft_res_com in H as (_ & _ & ->). cbn. apply MA_opl; assumption. }
+  split; [apply ms_after_mstate|].
+  unfold aft_res in H.
+  destruct o0 as [m f'|v0|e'].
+  - (* the frame yields a message *)
+    inversion H; subst; clear H. cbn. right.
+    destruct (frame_resume_yield_eng _ _ _ Hpid _ _ _ _ _ Hf Hfr) as [Hf' Hsf'].
+    exists f'. split; [|exact Hsf'].
+    exists (fs' ++ [FUser pid p b]), (rs' ++ [g]), []. 
+    assert (Est : stashed (if is_throw i then set_stashed (replace_top s2 f') None else replace_top s2 f') = None).
+    { destruct Hi as [(e & -> & _)|(v & -> & Es & _)]; cbn; [reflexivity|exact Es]. }
+    split; [destruct (is_throw i); cbn; rewrite Ep; reflexivity|].
+    split; [destruct (is_throw i); cbn; rewrite Er; reflexivity|].
+    split; [reflexivity|]. split; [constructor|]. split; [constructor|].
+    split; [constructor; auto|]. intros e He. rewrite Est in He. discriminate.
+  - (* the frame returns: only when sent a value *)
+    destruct Hi as [(e & -> & _)|(v & -> & Es & _)]; [exfalso; eapply frame_resume_throw_ret; eauto|].
+    assert (Hpl' : plans (pop_plan s2) = fs' ++ [FUser pid p b]) by (cbn; rewrite Ep; reflexivity).
+    destruct (plans (pop_plan s2)) eqn:E3; [destruct fs'; discriminate|].
+    inversion H; subst; clear H. cbn [is_throw QP]. right.
+    exists fs', p, b, rs', g. cbn. rewrite Ep, Er. cbn. repeat split; try assumption.
+    intros e He. cbn in He. rewrite Es in He. discriminate.
+  - (* the frame raises *)
+    assert (Hprov : is_Exception e' = true -> aE ms' e').
+    { intros _. destruct (frame_resume_raise _ _ _ _ _ _ Hf Hfr) as [Hne|[Et|[Ec|(-> & Hns & v & Ev & Hv)]]].
+      - apply allowed_after_ne. exact Hne.
+      - destruct Hi as [(e & -> & Ha)|(v & -> & _)]; [|discriminate]. inversion Et; subst. apply Hmono, Ha.
+      - destruct Hi as [(e & -> & _)|(v & -> & _)]; discriminate.
+      - destruct Hi as [(e & -> & _)|(v1 & -> & _ & [Hs|Hs])]; [discriminate| |]; inversion Ev; subst; tauto. }
+    destruct (is_Exception e') eqn:Eex.
+    + assert (Hpl' : plans (pop_plan s2) = fs' ++ [FUser pid p b]) by (cbn; rewrite Ep; reflexivity).
+      destruct (plans (pop_plan s2)) eqn:E3; [destruct fs'; discriminate|].
+      inversion H; subst; clear H. cbn [QP]. right.
+      exists fs', p, b, rs', g. cbn. rewrite Ep, Er. cbn. repeat split; try assumption.
+      intros e He. cbn in He. inversion He; subst. apply Hprov. reflexivity.
+    + assert (Hstash' : stash_ok s2 ms') by (intros e He; apply Hmono, Hstash, He).
+      destruct e'; try discriminate; inversion H; subst; clear H; cbn [QP].
+      * (* PlanHalt: the frame is replaced by an exhausted one *)
+        right. exists (FList [] :: fs'), p, b. cbn. rewrite Ep. cbn. split; [reflexivity|].
+        split; [constructor; [exact I|exact Hfs]|]. eapply owed_closeable; exact Howed'.
+      * (* CancelledError: the frame stays, its response slot is gone *)
+        right. exists [], f. exists (fs' ++ [FUser pid p b]), (rs' ++ [g]), [].
+        rewrite Ep, Er. repeat split; try assumption; try constructor; auto.
+      * right. exists (FList [] :: fs'), p, b. cbn. rewrite Ep. cbn. split; [reflexivity|].
+        split; [constructor; [exact I|exact Hfs]|]. eapply owed_closeable; exact Howed'.
+Qed.
+
+(* the monitor accepts the input the tracked plan is given *)
+Lemma input_accepted ms b g i (st2 : option exn) :
+  owed ms b g -> b = true \/ (exists v, i = Send v) ->
+  ((exists e, i = Throw e /\ (aE ms e \/ g = RExn e)) \/ (exists v, i = Send v /\ g = RVal v)) ->
+  exists fl, input_ok ms i = Some fl.
+Proof.
+  unfold owed, input_ok. intros Ho Hb Hi.
+  destruct (mp ms) as [| |m0|m0|m0 r0|] eqn:E; try contradiction.
+  - destruct Ho as (-> & ->). destruct Hb as [Hb|(v & ->)]; [discriminate|].
+    destruct Hi as [(e & Ei & _)|(v1 & Ei & Eg)]; [discriminate|]. inversion Ei; inversion Eg; subst. eauto.
+  - destruct Ho as (-> & ->). destruct Hi as [(e & -> & [Ha|Eg])|(v1 & -> & Eg)].
+    + unfold aE in Ha. rewrite Ha. eauto.
+    + discriminate.
+    + inversion Eg; subst. eauto.
+  - destruct Ho as (-> & ->). destruct Hi as [(e & -> & [Ha|Eg])|(v1 & -> & Eg)].
+    + unfold aE in Ha. rewrite Ha. eauto.
+    + discriminate.
+    + inversion Eg; subst. eauto.
+  - destruct Ho as (-> & ->). destruct Hi as [(e & -> & [Ha|Eg])|(v1 & -> & Eg)].
+    + unfold aE in Ha. destruct r0; [rewrite Ha; eauto|rewrite Ha, orb_true_r; eauto].
+    + subst r0. unfold exn_eqb. destruct (exn_eq_dec e e); [cbn; eauto|congruence].
+    + subst r0. unfold val_eqb. destruct (val_eq_dec v1 v1); [eauto|congruence].
+Qed.
+
+(* resuming the tracked plan itself *)
+Lemma aft_user (s2 : st) ms p b g i o0 po s' c' o :
+  plans s2 = [FUser pid p b] -> resps s2 = [] -> owed ms b g -> stash_ok s2 ms ->
+  ((exists e, i = Throw e /\ (aE ms e \/ g = RExn e)) \/ (exists v, i = Send v /\ g = RVal v /\ stashed s2 = None)) ->
+  frame_resume presume (FUser pid p b) i = (o0, po) -> aft_res s2 (is_throw i) (o0, po) = inl (s', c', o) ->
+  exists ms', MA pid ms o ms' /\ mstate ms' = mstate ms /\ QP s' c' ms'.
+Proof.
+  intros Ep Er Howed Hstash Hi Hfr H.
+  assert (Hn : mp ms <> SIn) by (unfold owed in Howed; destruct (mp ms); try tauto; congruence).
+  assert (Ho : o = po) by (apply aft_res_com in H as (_ & _ & ->); reflexivity). subst o.
+  (* was the plan really resumed? *)
+  assert (Hcase : (b = false /\ (exists e, i = Throw e) /\ po = [] /\ exists e, i = Throw e /\ o0 = Raised e) \/
+                  (po = [OPlanIn pid i] /\ (b = true \/ exists v, i = Send v) /\
+                   match o0 with
+                   | Yielded m f' => exists p', f' = FUser pid p' true
+                   | Raised e' => e' <> ECancelled
+                   | Returned _ => True
+                   end)).
+  { unfold frame_resume in Hfr. destruct i as [v|e|]; destruct b.
+    all: try (destruct Hi as [(e0 & Ei & _)|(v0 & Ei & _)]; discriminate).
+    all: try (left; inversion Hfr; subst; repeat split; eauto; fail).
+    all: right; destruct (presume p _) eqn:Epr; inversion Hfr; subst;
+         (split; [reflexivity|]); (split; [eauto|]); eauto; try exact I;
+         intros ->; eapply Hnc; exact Epr. }
+  destruct Hcase as [(-> & (e0 & Ei) & -> & e & Ei' & ->)|(-> & Hb & Hout)].
+  - (* an exception thrown into the plan before it ever ran: it is raised again without running the plan *)
+    subst i. inversion Ei'; subst e0. cbn [is_throw] in H.
+    assert (Emp : mp ms = SNone) by (unfold owed in Howed; destruct (mp ms); try tauto; destruct Howed; discriminate).
+    exists ms. split; [apply MA_nil|]. split; [reflexivity|].
+    unfold aft_res in H. destruct (is_Exception e) eqn:Eex.
+    + assert (Hpl' : plans (pop_plan s2) = []) by (cbn; rewrite Ep; reflexivity). rewrite Hpl' in H.
+      inversion H; subst; clear H. cbn. left. split; [rewrite Hpl'; constructor|left; exact Emp].
+    + destruct e; try discriminate; inversion H; subst; clear H; cbn [QP].
+      * left. split; [cbn; rewrite Ep; cbn; repeat constructor|left; exact Emp].
+      * right. exists [], (FUser pid p false). exists [], [], [].
+        rewrite Ep, Er. repeat split; try assumption; try constructor; auto. right. auto.
+      * left. split; [cbn; rewrite Ep; cbn; repeat constructor|left; exact Emp].
+  - (* the plan is resumed with input i *)
+    destruct (input_accepted ms b g i (stashed s2) Howed Hb) as (fl & Hio).
+    { destruct Hi as [Hi|(v & Ei & Eg & _)]; [left; exact Hi|right; eauto]. }
+    set (ms' := {| mstate := mstate ms; mp := SIn; mseen := []; mother := false |}).
+    assert (M : MA pid ms [OPlanIn pid i] ms').
+    { eapply MA_one with (fl := fl). unfold mon_obs. rewrite Nat.eqb_refl.
+      assert (Es : settle ms (OPlanIn pid i) = ms) by (unfold settle; destruct (mp ms); try reflexivity; congruence).
+      rewrite Es, Hio. reflexivity. }
+    exists ms'. split; [exact M|]. split; [reflexivity|].
+    unfold aft_res in H.
+    destruct o0 as [m f'|v0|e'].
+    + destruct Hout as (p' & ->). inversion H; subst; clear H. cbn [QP]. right.
+      exists (FUser pid p' true). split; [|exact I].
+      exists [], [], [].
+      assert (Est : stashed (if is_throw i then set_stashed (replace_top s2 (FUser pid p' true)) None else replace_top s2 (FUser pid p' true)) = None).
+      { destruct Hi as [(e & -> & _)|(v & -> & _ & Es)]; cbn; [reflexivity|exact Es]. }
+      split; [destruct (is_throw i); cbn; rewrite Ep; reflexivity|].
+      split; [destruct (is_throw i); cbn; rewrite Er; reflexivity|].
+      split; [reflexivity|]. split; [constructor|]. split; [constructor|].
+      split; [constructor; split; reflexivity|]. intros e He. rewrite Est in He. discriminate.
+    + assert (Hpl' : plans (pop_plan s2) = []) by (cbn; rewrite Ep; reflexivity). rewrite Hpl' in H.
+      inversion H; subst; clear H. cbn. left. split; [rewrite Hpl'; constructor|right; left; reflexivity].
+    + destruct (is_Exception e') eqn:Eex.
+      * assert (Hpl' : plans (pop_plan s2) = []) by (cbn; rewrite Ep; reflexivity). rewrite Hpl' in H.
+        inversion H; subst; clear H. cbn. left. split; [rewrite Hpl'; constructor|right; left; reflexivity].
+      * destruct e'; try discriminate; try congruence; inversion H; subst; clear H; cbn [QP];
+          left; (split; [cbn; rewrite Ep; cbn; repeat constructor|right; left; reflexivity]).
+Qed.
+
+Lemma stash_ok_s2 (s : st) ms : exc_ok s -> stash_ok s ms -> stash_ok (aft_s2 s) ms.
+Proof.
+  intros Hex Hs e He. destruct (aft_s2_facts s) as (_ & _ & _ & _ & Es). rewrite Es in He.
+  destruct (exc_slot s) eqn:E; [inversion He; subst; apply aE_ext, Hex; exact E|apply Hs, He].
+Qed.
+
+Lemma dstep_CAfterSleep (s : st) ms s' c' o : Q s CAfterSleep ms -> dstep s CAfterSleep = inl (s', c', o) ->
+  exists ms', MA pid ms o ms' /\ Q s' c' ms'.
+Proof.
+  intros HQ0 H. pose proof HQ0 as (Hst & Hex & Hty & Hq).
+  assert (Hnp : state s <> Paused) by (intros Hp; apply Hty in Hp; exact Hp).
+  destruct (resps s) as [|r rest] eqn:Er.
+  { unfold RE_Small.dstep in H. rewrite Er in H. inversion H; subst.
+    eapply Q_quiet_bal; [exact HQ0|exact I| |right; exact I]. repeat split; auto. repeat constructor. }
+  destruct (plans s) as [|top pl] eqn:Ep.
+  { unfold RE_Small.dstep in H. rewrite Er, Ep in H. inversion H; subst.
+    eapply Q_quiet_bal; [exact HQ0|exact I| |right; exact I]. repeat split; auto. repeat constructor. }
+  rewrite (aft_eq s r rest top pl Er Ep) in H.
+  destruct (aft_s2_facts s) as (Ep2 & Er2 & Est2 & Eex2 & Esh2).
+  destruct (frame_resume presume top (aft_in s r)) as [o0 po] eqn:Hfr.
+  destruct (aft_res_com _ _ _ _ _ _ H) as (Est' & Eex' & _).
+  assert (Hfin : forall ms', mstate ms' = mstate ms -> QP s' c' ms' -> Q s' c' ms').
+  { intros ms' Em Hqp. split; [rewrite Em, Hst; congruence|]. split; [apply exc_ok_none; congruence|].
+    split; [intros Hp; exfalso; apply Hnp; congruence|exact Hqp]. }
+  cbn in Hq. destruct Hq as [[Hok Hd]|(fs & p & b & rs & g & H1 & H2 & H3 & H4 & H5 & H6)].
+  - destruct (aft_gone (aft_s2 s) ms (is_throw (aft_in s r)) top pl (aft_in s r) o0 po s' c' o) as (ms' & M & Em & Hqp); try assumption.
+    + rewrite Ep2. exact Hok.
+    + rewrite Ep2. exact Ep.
+    + exists ms'. split; [exact M|apply Hfin; assumption].
+  - assert (Hs2 : stash_ok (aft_s2 s) ms) by (apply stash_ok_s2; assumption).
+    rewrite Ep in H1. rewrite Er in H3.
+    destruct fs as [|f fs'].
+    + (* the tracked plan is on top *)
+      inversion H4; subst. cbn in H1, H3. inversion H1; subst. inversion H3; subst.
+      destruct (aft_user (aft_s2 s) ms p b g (aft_in s g) o0 po s' c' o) as (ms' & M & Em & Hqp); try assumption.
+      * rewrite Ep2. exact Ep.
+      * rewrite Er2, Er. reflexivity.
+      * unfold aft_in. destruct (stashed (aft_s2 s)) eqn:Es; [left; eexists; split; [reflexivity|left; apply Hs2; exact Es]|].
+        destruct g; [right; eexists; repeat split; auto|left; eexists; split; [reflexivity|right; reflexivity]].
+      * exists ms'. split; [exact M|apply Hfin; assumption].
+    + (* an engine frame is on top *)
+      inversion H2 as [|? ? Hf Hfs]; subst. inversion H4 as [|? r0 ? rs' Hp0 Hps]; subst.
+      cbn in H1, H3. inversion H1; subst. inversion H3; subst.
+      destruct Hp0 as [Hrok Hsn].
+      destruct (aft_eng (aft_s2 s) ms f fs' p b rs' g (aft_in s r0) o0 po s' c' o) as (ms' & M & Em & Hqp); try assumption.
+      * rewrite Ep2. exact Ep.
+      * rewrite Er2, Er. reflexivity.
+      * unfold aft_in. destruct (stashed (aft_s2 s)) eqn:Es; [left; eexists; split; [reflexivity|apply Hs2; exact Es]|].
+        destruct r0; [right; eexists; split; [reflexivity|split; [reflexivity|]]|left; eexists; split; [reflexivity|exact Hrok]].
+        destruct Hsn as [Hsn|Hsn]; [left; exact Hsn|right; inversion Hsn; reflexivity].
+      * exists ms'. split; [exact M|apply Hfin; assumption].
+Qed.
+Lemma dstep_CAfterSleep_fin (s : st) s' o : dstep s CAfterSleep = inr (s', o) -> False.
+Proof.
+  intros H. destruct (resps s) as [|r rest] eqn:Er; [unfold RE_Small.dstep in H; rewrite Er in H; discriminate|].
+  destruct (plans s) as [|top pl] eqn:Ep; [unfold RE_Small.dstep in H; rewrite Er, Ep in H; discriminate|].
+  rewrite (aft_eq s r rest top pl Er Ep) in H. eapply aft_res_inr; exact H.
+Qed.
+
+(* ------------------------------------------------------------------ all control points together *)
+Lemma dstep_Q (s : st) c ms s' c' o : Q s c ms -> dstep s c = inl (s', c', o) ->
+  exists ms', MA pid ms o ms' /\ Q s' c' ms'.
+Proof.
+  intros HQ0 H. destruct c.
+  - eapply dstep_CTop; eassumption.
+  - eapply dstep_CBody; eassumption.
+  - eapply dstep_CAfterSleep; eassumption.
+  - eapply dstep_CProcess; eassumption.
+  - destruct popped; [eapply dstep_CContinue_true|eapply dstep_CContinue_false]; eassumption.
+  - destruct popped; [eapply dstep_CCancelled_true|eapply dstep_CCancelled_false]; eassumption.
+  - eapply dstep_CExit; eassumption.
+  - exfalso. eapply dstep_CFinalize; eassumption.
+Qed.
+
+Lemma dstep_Q_fin (s : st) c ms s' o : Q s c ms -> dstep s c = inr (s', o) ->
+  exists ms', MA pid ms o ms' /\ Inv s' ms'.
+Proof.
+  intros HQ0 H. destruct c.
+  - eapply dstep_CTop_fin; eassumption.
+  - eapply dstep_CBody_fin; eassumption.
+  - exfalso. eapply dstep_CAfterSleep_fin; eassumption.
+  - eapply dstep_CProcess_fin; eassumption.
+  - unfold RE_Small.dstep in H. discriminate.
+  - unfold RE_Small.dstep in H. repeat bm_hyp H; discriminate.
+  - eapply dstep_CExit_fin; eassumption.
+  - eapply dstep_CFinalize_fin; eassumption.
+Qed.
+
+(* the `_run` loop from any control point: either the model ran out of fuel (reported as OBad 1), or the
+   monitor accepts everything emitted and the invariant holds where the task comes to rest *)
+Lemma drive_resp fuel : forall (s : st) c os ms0 ms s' o,
+  MA pid ms0 os ms -> Q s c ms -> drive presume plan_of dev fuel s c os = (s', o) ->
+  In (OBad 1) o \/ exists ms', MA pid ms0 o ms' /\ Inv s' ms'.
+Proof.
+  intros s c os ms0 ms s' o HM HQ0 H.
+  eapply (drive_inv P presume plan_of D dev
+            (fun s c os => exists ms, MA pid ms0 os ms /\ Q s c ms)
+            (fun s' o => In (OBad 1) o \/ exists ms', MA pid ms0 o ms' /\ Inv s' ms')); [| | | |exact H].
+  - intros s1 c1 os1 s2 c2 o2 (ms1 & M1 & Q1) Hd. destruct (dstep_Q _ _ _ _ _ _ Q1 Hd) as (ms2 & M2 & Q2).
+    exists ms2. split; [eapply MA_app; eassumption|exact Q2].
+  - intros s1 c1 os1 s2 o2 (ms1 & M1 & Q1) Hd. destruct (dstep_Q_fin _ _ _ _ _ Q1 Hd) as (ms2 & M2 & I2).
+    right. exists ms2. split; [eapply MA_app; eassumption|exact I2].
+  - intros s1 c1 os1 _. left. apply in_or_app. right. left. reflexivity.
+  - exists ms. split; assumption.
+Qed.
+
 End Proofs.
